@@ -295,6 +295,22 @@ class _Flattener(object):
                     if not self._inert(a):
                         break
             return pre, e2
+        if isinstance(e, (ast.Tuple, ast.List)) and isinstance(getattr(e, "ctx", None), ast.Load):
+            # elements: hoist helper calls as long as everything evaluated before them is inert
+            pre = []
+            e2 = copy.copy(e)
+            e2.elts = list(e.elts)
+            for i, a in enumerate(e2.elts):
+                if isinstance(a, ast.Call) and self.target(a, stack) is not None:
+                    t = self.temp()
+                    st = self.expand(a, ast.Name(t, ast.Store()), stack)
+                    if st is not None:
+                        pre += st
+                        e2.elts[i] = ast.copy_location(ast.Name(t, ast.Load()), a)
+                        continue
+                if not self._inert(a):
+                    break
+            return pre, e2
         if isinstance(e, ast.UnaryOp) and isinstance(e.op, ast.Not):
             pre, v = self.hoist_expr(e.operand, stack)
             return pre, ast.copy_location(ast.UnaryOp(ast.Not(), v), e)
